@@ -27,7 +27,7 @@ from pycdlib import utils
 
 # For mypy annotations
 if False:  # pylint: disable=using-constant-test
-    from typing import List, Tuple  # NOQA pylint: disable=unused-import
+    from typing import List, Optional, Tuple  # NOQA pylint: disable=unused-import
 
 VOLUME_DESCRIPTOR_TYPE_BOOT_RECORD = 0
 VOLUME_DESCRIPTOR_TYPE_PRIMARY = 1
@@ -406,13 +406,14 @@ class PrimaryOrSupplementaryVD:
 
         self._initialized = True
 
-    def record(self):
-        # type: () -> bytes
+    def record(self, mod_time=None):
+        # type: (Optional[float]) -> bytes
         """
         Generate the string representing this Volume Descriptor.
 
         Parameters:
-         None.
+         mod_time - The time to record as the volume modification date (the
+                    current time if None).
         Returns:
          A string representing this Volume Descriptor.
         """
@@ -420,7 +421,7 @@ class PrimaryOrSupplementaryVD:
             raise pycdlibexception.PyCdlibInternalError('This Volume Descriptor is not initialized')
 
         vol_mod_date = dates.VolumeDescriptorDate()
-        vol_mod_date.new(time.time())
+        vol_mod_date.new(time.time() if mod_time is None else mod_time)
 
         return struct.pack(self.FMT,
                            self._vd_type,
